@@ -1,10 +1,13 @@
 --------------------------- MODULE RainCoreReopen ---------------------------
 (***************************************************************************)
 (* RainCore extended with what is PERSISTED and with close / reopen:        *)
-(*   man     the manifest: a sequence of version edits (files added with    *)
-(*           level, number and RECORDED bounds; files deleted; the WAL      *)
-(*           number from which logs are still needed; file-number counter   *)
-(*           and last sequence at the time of the edit);                    *)
+(*   man     the manifest.  On disk it is a sequence of version edits       *)
+(*           (files added with level, number and RECORDED bounds; files     *)
+(*           deleted; the WAL number from which logs are still needed; the  *)
+(*           file-number counter and last sequence at the time of the       *)
+(*           edit).  Recovery reads it only through its fold (VersionSet::  *)
+(*           recover applies the edits in order), so the variable holds the *)
+(*           fold: appending an edit = applying it (FoldEdit).              *)
 (*   walEnts what every write-ahead log holds.                              *)
 (* Every RainCore action that installs a version appends the corresponding  *)
 (* edit; `Open` rebuilds the volatile state the way DB::open does: fold the *)
@@ -38,8 +41,6 @@ EditOf ==
                     : l \in Levels},
    logWal |-> logWal', next |-> nextFile', last |-> seq']
 
-Logged == man' = Append(man, EditOf)
-
 \* VersionBuilder: apply one edit to a version
 ApplyEdit(v, e) ==
   [l \in Levels |->
@@ -48,20 +49,19 @@ ApplyEdit(v, e) ==
      IF l = 0 THEN kept \o SetToSortSeq(added, LAMBDA a, b : a.no < b.no)
      ELSE InsertAll(kept, added)]
 
-RECURSIVE FoldEdits(_, _, _)
-FoldEdits(recs, i, acc) ==
-  IF i > Len(recs) THEN acc
-  ELSE FoldEdits(recs, i + 1, [ver |-> ApplyEdit(acc.ver, recs[i]), logWal |-> recs[i].logWal,
-                               next |-> recs[i].next, last |-> recs[i].last])
+FoldEdit(m, e) == [ver |-> ApplyEdit(m.ver, e), logWal |-> e.logWal, next |-> e.next, last |-> e.last]
+EmptyMan == [ver |-> EmptyVersion(NL), logWal |-> 0, next |-> 0, last |-> 0]
 
-Recovered == FoldEdits(man, 1, [ver |-> EmptyVersion(NL), logWal |-> 0, next |-> 0, last |-> 0])
+Logged == man' = FoldEdit(man, EditOf)
+
+Recovered == man
 
 SeqMax(E) == IF E = {} THEN 0 ELSE SetMax({e[2] : e \in E})
 
 ---------------------------------------------------------------------------
 RInit ==
   /\ Init
-  /\ man = << [add |-> {}, del |-> {}, logWal |-> 1, next |-> 1, last |-> 0] >>
+  /\ man = FoldEdit(EmptyMan, [add |-> {}, del |-> {}, logWal |-> 1, next |-> 1, last |-> 0])
   /\ walEnts = (1 :> {}) /\ isopen = TRUE /\ reopens = 0
 
 Same == UNCHANGED <<man, walEnts, isopen, reopens>>
@@ -134,8 +134,8 @@ Open(reuse, mreuse) ==
      /\ disk' = (disk \cup {<<"table", counter + j>> : j \in 1..nt}) \cup {<<"wal", wno>>}
      /\ walEnts' = IF walReused THEN walEnts ELSE (wno :> {}) @@ walEnts
      /\ IF ~(reuse /\ mreuse)
-        THEN man' = << SnapshotEdit(v2, wno, nxt, lastSeq) >> /\ logWal' = wno
-        ELSE IF changed THEN man' = Append(man, edit) /\ logWal' = wno
+        THEN man' = FoldEdit(EmptyMan, SnapshotEdit(v2, wno, nxt, lastSeq)) /\ logWal' = wno
+        ELSE IF changed THEN man' = FoldEdit(man, edit) /\ logWal' = wno
         ELSE man' = man /\ logWal' = r.logWal
   /\ imm' = {} /\ immOn' = FALSE /\ immDone' = FALSE /\ immWal' = 0
   /\ pins' = {} /\ snaps' = <<>> /\ pending' = {} /\ comp' = NoComp /\ nextPin' = 1
